@@ -13,6 +13,7 @@ mod d2_common;
 mod d_common;
 
 use celestia_types::consts::appconsts::AppVersion;
+use celestia_types::consts::data_availability_header::max_extended_square_width;
 use celestia_types::nmt::{NS_SIZE, Namespace};
 use celestia_types::{AxisType, ExtendedDataSquare};
 use d2_common::*;
@@ -220,11 +221,43 @@ impl C08 {
             out.op(new_line(ver, false, &shares), "new/width-not-power-of-two-or-too-small", true);
         }
         out.op(new_line(ver, false, &[]), "new/empty", true);
+        // above the app version's bound: a 512 x 512 extended square (up to version 5 the bound is 256 x 256) and a
+        // 129 x 129 original square (bound 128 x 128); the share bytes do not matter for the size checks
+        let small_ver = rng.range(1, 5);
+        out.op(new_line(small_ver, false, &vec![vec![]; 512 * 512]), "new/above-size-bound", true);
+        out.op(new_line(small_ver, false, &vec![vec![]; 256 * 256 + 1]), "new/above-size-bound", true);
+        out.op(extend_line(small_ver, false, &vec![vec![]; 129 * 129]), "extend/above-size-bound", true);
         // all-parity-namespace and tail-padding-only squares are valid
         for ns in [Namespace::PARITY_SHARE, Namespace::TAIL_PADDING] {
             let k = *rng.pick(&[1usize, 2, 4]);
             let ods: Vec<Vec<u8>> = (0..k * k).map(|_| d_common::ods_share(rng, &ns)).collect();
             out.op(extend_line(ver, true, &ods), "extend/reserved-namespace-only", true);
+        }
+    }
+
+    /// "out-of-bounds size" (added after tools/coverage.sh showed `shares.len() > max_shares` in
+    /// `ExtendedDataSquare::new` was never taken): one share more than the largest extended square of the
+    /// app version, and exactly the largest one (passes the size check, fails later on the share size).
+    /// Shares are empty (`_`) so that the op line stays small; one app version per distinct upper bound.
+    fn gen_out_of_bounds(&mut self, rng: &mut Rng, thorough: bool, out: &mut Emitter) {
+        let mut seen = vec![];
+        for ver in 1..=7u64 {
+            let app = AppVersion::from_u64(ver).unwrap();
+            let maxw = max_extended_square_width(app);
+            if seen.contains(&maxw) && !thorough {
+                continue;
+            }
+            seen.push(maxw);
+            let over: Vec<Vec<u8>> = vec![vec![]; maxw * maxw + 1];
+            out.op(new_line(ver, false, &over), "new/too-many-shares", true);
+            let at: Vec<Vec<u8>> = vec![vec![]; maxw * maxw];
+            out.op(new_line(ver, false, &at), "new/max-shares-wrong-share-size", true);
+            // the next square number of shares above the bound (a perfect, power-of-two square: only the bound rejects it)
+            if maxw <= 256 || thorough {
+                let next: Vec<Vec<u8>> = vec![vec![]; 4 * maxw * maxw];
+                out.op(new_line(ver, false, &next), "new/next-square-above-bound", true);
+            }
+            let _ = rng;
         }
     }
 
@@ -266,6 +299,13 @@ impl Prop for C08 {
         }
         for _ in 0..(if thorough { 8 } else { 2 }) {
             self.gen_shapes(rng, out);
+        }
+        self.gen_out_of_bounds(rng, thorough, out);
+        if thorough {
+            // a VALID original square wider than the codec supports (129 x 129, app version 7 allows up to 512):
+            // lumina cannot extend it (known finding C08/valid-ods-wider-than-codec-rejected)
+            let share = d_common::ods_share(rng, &Namespace::TAIL_PADDING);
+            out.op(extend_line(7, true, &vec![share; 129 * 129]), "extend/valid-wider-than-codec", true);
         }
         let ks: &[usize] = if thorough { &[1, 2, 3, 4, 5, 8, 16, 32, 64, 100, 128] } else { &[1, 2, 4, 8, 16, 32, 128] };
         for &k in ks {
